@@ -175,7 +175,7 @@ def _strategy(nmax: int):
         dtype = draw(st.sampled_from(["f32", "f64"]))
         method = draw(st.sampled_from(["eigh", "qr", "qr", "qr"]))
         recipe = draw(matgen.st_recipe(max_logk=3.0 if dtype == "f32" else 6.0, allow_neg=False, allow_zero=True))
-        c: dict = {"n": draw(st.one_of(st.integers(2, min(8, nmax)), st.integers(1, nmax))), "dtype": dtype, "method": method, "recipe": recipe,
+        c: dict = {"n": (draw(st.one_of(st.integers(2, min(8, nmax)), st.integers(1, nmax))) if nmax <= 24 else draw(st.one_of(st.integers(25, nmax), st.sampled_from([32, 33, 64])))), "dtype": dtype, "method": method, "recipe": recipe,
                    "flag_diag": draw(st.booleans())}
         if method == "qr":
             c["max_it"] = draw(st.one_of(st.integers(1, 5), st.integers(1, 50)))
@@ -191,5 +191,5 @@ _ = math
 
 STREAMS = {
     "bases": Stream("bases", oracle=oracle, strategy=strategy, quick=10000, thorough=250000, shards_quick=16, shards_thorough=16),
-    "bases_large": Stream("bases_large", oracle=oracle, strategy=strategy_large, quick=0, thorough=30000, shards_quick=1, shards_thorough=16),
+    "bases_large": Stream("bases_large", oracle=oracle, strategy=strategy_large, quick=320, thorough=30000, shards_quick=8, shards_thorough=16),
 }
